@@ -56,6 +56,10 @@ CELL_TEMPLATES = [
     "lambda x: k * 1000 + i * 10 + x",
     "lambda x: s * 3 + x + {k}",
     "lambda x: n * 7 + k + x",
+    # through a REFERENCE of the space whose value is a member of the space's own tree (an alias of a sibling cells,
+    # a reference to a child space): in an instance the reference denotes the instance's own member
+    "lambda x: {ro}(x) + {k}",
+    "lambda x: {rs}.{a}(x) * 2 + {k}",
 ]
 CALLER_SRC = "lambda x: _model.{s}(x).{a}(x) + 1"
 
@@ -306,7 +310,13 @@ class World:
             static_space(m, op[1]).cells[op[2]].rename(op[3])
             return "ok"
         if k == "set_ref":
-            setattr(static_space(m, op[1]), op[2], op[3])
+            # ["set_ref", space, name, value] / [.., ["obj", path], mode]: an object-valued reference (a space or a
+            # cells of this model, by its dotted path) with the reference mode
+            v = objvalue(m, op[3])
+            if len(op) > 4 and op[4] not in (None, "auto"):
+                static_space(m, op[1]).set_ref(op[2], v, op[4])
+            else:
+                setattr(static_space(m, op[1]), op[2], v)
             return "ok"
         if k == "del_ref":
             delattr(static_space(m, op[1]), op[2])
@@ -356,6 +366,19 @@ class World:
             walk(m, op[1], op[2]).clear_all()
             return "ok"
         return "bad-op"
+
+
+def is_obj(v):
+    return isinstance(v, (list, tuple)) and len(v) == 2 and v[0] == "obj"
+
+
+def objvalue(m, v):
+    if not is_obj(v):
+        return v
+    obj = m
+    for p in v[1].split("."):
+        obj = getattr(obj, p)
+    return obj
 
 
 def fresh_replay(ops, upto, name="F"):
@@ -442,12 +465,41 @@ def expected_base_and_refs(m, path, cchain):
     return cur, argmaps, frefs
 
 
+class NotReplicable(Exception):
+    pass
+
+
+def obj_refs(space):
+    """{name: (object, mode)} for the own references of a space whose value is a modelx object"""
+    out = {}
+    for n in space._own_refs:
+        r = space._impl.own_refs[n]
+        if hasattr(r.interface, "_impl"):
+            out[n] = (r.interface, r.refmode)
+    return out
+
+
+def inside(base, obj):
+    """the path of `obj` relative to the space `base` ([] for base itself), or None when it is not in base's tree"""
+    b, o = base.fullname.split("."), obj.fullname.split(".")
+    return o[len(b):] if o[:len(b)] == b else None
+
+
+def follow(root, rel):
+    for n in rel:
+        root = getattr(root, n)
+    return root
+
+
 def build_replica(rm, name, base, argmaps, frefs, dyn):
     """plain static copy of `base` in the model `rm` with the arguments (innermost wins) and the
-    formula's references bound as references; input values of `dyn` are copied"""
+    formula's references bound as references; input values of `dyn` are copied.  A reference of the base tree whose
+    value is a member of the base tree (not in absolute mode) denotes the copy's own member; any other
+    object-valued reference cannot be copied into another model (NotReplicable)"""
     args = {}
     for a in argmaps:
         args.update(a)
+    later = []
 
     def copy(rs, b, own, d):
         for cn, c in b.cells.items():
@@ -457,6 +509,13 @@ def build_replica(rm, name, base, argmaps, frefs, dyn):
         refs.update(args)
         for n, v in refs.items():
             setattr(rs, n, v)
+        for n, (v, mode) in obj_refs(b).items():
+            if n in refs:
+                continue
+            rel = inside(base, v) if v._is_valid() else None
+            if rel is None or mode == "absolute":
+                raise NotReplicable(n)
+            later.append((rs, n, rel))
         for chn, ch in b.spaces.items():
             copy(rs.new_space(chn), ch, {}, d.spaces[chn] if d is not None and chn in d.spaces else None)
         if d is not None:
@@ -467,4 +526,6 @@ def build_replica(rm, name, base, argmaps, frefs, dyn):
 
     rs = rm.new_space(name)
     copy(rs, base, frefs, dyn)
+    for sp, n, rel in later:
+        setattr(sp, n, follow(rs, rel))
     return rs
